@@ -265,6 +265,67 @@ def check(prog, res, tier):
                                 'returned increment', func_where(dfi), 'message_pointer += message_increment', chk_b),
         seen['b'], 'a loop iteration of the message parser that calls the element parser'))
 
+    # ---- C08.e (message header): a message that holds its complete type indicator and bitmap is not refused for its length
+    hdr_seen = {'n': 0}
+    CONTENT_OPS = ('int(', 'decode(', 'unhexlify', 'codec')   # failures of the content (don't-care / undecodable text), not of the framing
+
+    def chk_e_hdr(p, mode):
+        if p.outcome != 'raise':
+            return []
+        if any(e.kind in ('loop-head', 'loop-iter', 'unit-call') for e in p.events if e.seq > 0 and dfi.short in e.stack):
+            return []          # the header was split: the element walk has begun
+        # ... and nothing but the length of the message (and the kind of bitmap) was consulted on the way: from the first
+        # comparison of len(message) on, every decision of the path is such a comparison.  (A loop over a collection that turned
+        # out empty leaves no loop events; the decisions that made it empty are on the path.)
+        import re
+        seen_len = False
+        for lab, c in zip(p.labels, p.choices):
+            lab = lab or ''
+            if re.fullmatch(r'-?len\(message\)([+-]\d+)?(>=|==)0', lab):
+                seen_len = True
+            elif lab.startswith('raise ') and c == 1:
+                seen_len = True       # the operation that failed (its condition is in the store)
+            elif not seen_len and (lab.startswith('hex_bitmap') or re.fullmatch(r'dict#\d+ non-empty', lab)):
+                continue              # which bitmap rendering, which configuration: settled before the message is looked at
+            else:
+                return []
+        if not seen_len:
+            return []
+        exc = p.value
+        cause = exc.op
+        caught = [e for e in p.events if e.kind == 'caught']
+        if cause is None and caught:
+            cause = getattr(caught[-1].data['exc'], 'op', None) or 'an exception raised by the program'
+        if cause is not None and any(str(cause).startswith(c) or c in str(cause)[:40] for c in CONTENT_OPS):
+            return []
+        msg = p.interp.user['message']
+        if not (isinstance(msg, SeqV) and len(msg.segs) == 1 and hasattr(msg.segs[0], 'src')):
+            return [soft('message argument has an unexpected shape')]
+        n = msg.segs[0].src.length
+        hb = p.interp.binds.get(('truth', 'hex_bitmap'))
+        need = 20 if hb is False else 36
+        hdr_seen['n'] += mode == 'inv'
+        st = p.store
+        if st.refutes_ge0(n - need):
+            return []
+        trial = st.copy()
+        try:
+            trial.assume_ge0(n - need)
+        except Infeasible:
+            return []
+        node = getattr(exc, 'raise_node', None) or exc.node
+        if cause is not None and not str(cause).startswith('struct.'):
+            return [soft(f'a message of {need} bytes or more is refused before its bitmap is examined, because of {cause}', node)]
+        return [Failure(f'a message that holds its complete type indicator and bitmap ({need} bytes or more'
+                        f'{"" if hb is None else ", hex bitmap" if hb else ", binary bitmap"}) is refused before the bitmap is '
+                        f'examined: a message without elements is well-framed', node=node, neg=[[n - need]])]
+    chk_e_hdr.check_abandoned = False
+    res.add(require_instances(
+        du.loads.judge('C08.e', 'the header split refuses a message only when its type indicator and bitmap are incomplete '
+                                '(or not decodable)', func_where(dfi), 'struct.unpack("4s16s<n>s", message) / except struct.error',
+                       chk_e_hdr, rule='C08.e.header'),
+        hdr_seen['n'], 'a rejection of a message before its bitmap is examined'))
+
     cursor_names = set()
 
     def chk_d(p, mode):
